@@ -273,6 +273,9 @@ def audit(defn, forbidden_names=()):
                         err("count-not-earlier", f"{k}: count {n!r} is not a preceding attribute")
                     else:
                         _, kind, t = hit[0]
+                        if kind == "flag":
+                            # sized by a bit flag: not an attribute when bitfields are left as bytes
+                            err("count-is-bit-flag", f"{k}: count {n!r} is a bit flag, not an integer attribute")
                         if kind == "attr" and (isinstance(t, list) or t[0] not in "UEL" + "I"):
                             err("count-not-integer", f"{k}: count {n!r} has type {t!r}")
                 walk(sub, depth + 1, names_bf1, names_bf0, seen_top, in_none or n == "None")
